@@ -184,12 +184,23 @@ impl Compiler
 			let declaration = self.typer.analyze(declaration);
 			let declaration = self.analyzer.analyze(declaration);
 			self.linter.lint(&declaration);
+			let name_of_constant = match &declaration
+			{
+				common::Declaration::Constant { name, .. } => Some(name.clone()),
+				_ => None,
+			};
 			let resolved = resolver::resolve(declaration);
 			if let Ok(declaration) = &resolved
 			{
 				// If code generation fails, bail out.
 				self.generator.declare(&declaration)?;
 				self.fetch_declared_constants(&declaration);
+			}
+			else if let Some(name) = name_of_constant
+			{
+				// No value is generated for this constant, hence constants
+				// that use it cannot be generated either.
+				self.typer.poison_constant(&name);
 			}
 			Ok(resolver::accumulate(acc, resolved))
 		})
